@@ -151,7 +151,7 @@ def check_C01(tier, seed, replay=None):
     # alphabet, every Unicode class name, random mixes; all 128 Basic Latin runes, non-ASCII runes, ill-formed bytes) against
     # the meaning of a class in PegRef, with the case forms and class members taken from Go's unicode package
     run_c = Run("C01", tier, seed)
-    cl = class_runs(run_c, tier, seed, [[], ["-optimize-parser"]], nrand=200 if tier == "quick" else 1500)
+    cl = class_runs(run_c, tier, seed, [[], ["-optimize-parser", "-optimize-basic-latin"]], nrand=200 if tier == "quick" else 1500)
     d_c, tot_c = class_meaning(run_c, tier, seed, *cl, which=range(len(cl[4])))
     for d in d_c:
         g_ = cl[1][d["gi"] - 1]
@@ -262,7 +262,7 @@ def check_C05(tier, seed, replay=None):
     inputs = F.all_inputs([F.A, F.B], maxlen)
     # the budget of the diverging members is small: every event carries the store its block saw, and a store that grows with
     # every iteration (Cloner append) makes an observation quadratic in the budget (9 MB per parse at 3000)
-    options = [opt(), opt(maxexpr=200), opt(initx=2, initg=3), opt(initx=1, initg=1, maxexpr=200), opt(debug=True)]    # InitState / GlobalStore options; Debug for T2
+    options = [opt(), opt(maxexpr=200), opt(initx=2, initg=3, initcl=5), opt(initx=1, initg=1, initcl=4, maxexpr=200), opt(debug=True)]    # InitState (a Cloner first, a plain value after it) / GlobalStore options; Debug for T2
     run.keep_debug = True
     nin = len(inputs)
     lrin = add_lr(groups, inputs, 60 if tier == "quick" else 400, seed)     # state blocks inside left-recursive growth
@@ -458,7 +458,7 @@ def check_C11(tier, seed, replay=None):
         ois = []
         for r in range(len(blks) + 1):
             for sub in itertools.combinations(blks, r):       # every subset of failing blocks
-                options.append(opt(errblks=list(sub), fname=rng.choice(["", "f", "dir/x.peg"])))
+                options.append(opt(errblks=list(sub), fname=rng.choice(["", "f", "dir/x.peg", "a%d b.peg", "100%.txt", "x:1:2 (3).peg"])))
                 ois.append(len(options) - 1)
         for b in blks:                                          # every single block panics, contained or not
             for rec in (True, False):
@@ -1031,7 +1031,8 @@ def check_C19(tier, seed, replay=None):
     pv = P.build_pigeon("verif")
     reqs = []
     for i, g in enumerate(chosen + optg[:40]):
-        reqs.append(json.dumps(dict(id=g.gi, text=list(texts[g.gi].encode()), times=K, lr=True, optimize=(i % 2 == 0), entry=[g.sname()])))
+        reqs.append(json.dumps(dict(id=g.gi, text=list(texts[g.gi].encode()), times=K, lr=True, optimize=(i % 2 == 0), entry=[g.sname()],
+                                    optparser=(i % 3 == 0), latin=(i % 3 == 1))))          # the hook builds its option values once and uses them for all K builds
     p = subprocess.run([pv], input=("\n".join(reqs) + "\n").encode(), stdout=subprocess.PIPE, stderr=subprocess.PIPE, env=dict(P.ENV, PIGEON_VERIF="rebuild"), timeout=1800)
     if p.returncode != 0:
         raise P.Inconclusive("hook failed: " + p.stderr.decode(errors="replace")[-500:])
@@ -2011,7 +2012,8 @@ def check_C18(tier, seed, replay=None):
     lrg = F.lr_groups(seed, n // 3, gi0=len(groups) + 1)
     groups += lrg
     inputs = F.all_inputs([F.A, F.B], 3) + F.all_inputs([F.NN, F.PLUS, F.STAR_], 3)
-    options = [opt(), opt(memo=True), opt(maxexpr=40), opt(allowinv=True, stats=False), opt(memo=True, maxexpr=3000)]
+    options = [opt(), opt(memo=True), opt(maxexpr=40), opt(allowinv=True, stats=False), opt(memo=True, maxexpr=3000),
+               opt(via="reader"), opt(via="reader", maxexpr=3000)]          # the other entry points of the package share whatever ParseReader shares
     # calls with very few options (the per-parse log, optionally Memoize): only possible for the default entry rule
     few = [len(options), len(options) + 1, len(options) + 2]
     options += [opt(entry="-", stats=False), opt(entry="-", stats=False, memo=True), opt(entry="-", stats=False, allowinv=True)]
